@@ -1,3 +1,5 @@
+//go:build !race
+
 #include "textflag.h"
 
 // func getg() unsafe.Pointer
